@@ -327,6 +327,23 @@ def dense_oracles(ctx, quick):
                 tO = mgen.dense_state(O, ops)
                 perm = [2 * (N - 1 - i // 2) + (i % 2) for i in range(2 * N)]
                 chk('reverse_sites(O)', mgen.dense_state(rO, ops), tO.transpose(perm))
+            # a CHARGED operator between states of different total charge; its charge may leave through the first or through the last virtual leg
+            chg = {'Spin12': lambda: ops.sp(), 'Spin1': lambda: ops.sp(), 'SpinlessFermions': lambda: ops.cp(), 'SpinfulFermions': lambda: ops.cp('u')}.get(fam)
+            if chg is not None and sym != 'dense' and N >= 2:
+                loc = [ops.I() for _ in range(N)]
+                loc[rng.randrange(N)] = chg()
+                if rng.random() < 0.5:
+                    j_ = rng.randrange(N)
+                    if loc[j_].n == loc[j_].config.sym.zero():
+                        loc[j_] = ops.z() if hasattr(ops, 'z') else (ops.n() if fam == 'SpinlessFermions' else ops.I())
+                Oc = rng.choice([1.0, 0.5, -2.0]) * mps.product_mpo(loc)
+                bra_c = Oc @ a + (Oc @ b)
+                if float(bra_c.norm()) > 1e-9:
+                    Mc = dmat(Oc, ops)
+                    chk('measure_mpo(charged O)', np.array(mps.measure_mpo(bra_c, Oc, a)), np.vdot(dvec(bra_c, ops), Mc @ va), exact=False)
+                    br, Or_, kr = bra_c.reverse_sites(), Oc.reverse_sites(), a.reverse_sites()
+                    chk('measure_mpo(charged O, sites reversed)', np.array(mps.measure_mpo(br, Or_, kr)), np.vdot(dvec(br, ops), dmat(Or_, ops) @ dvec(kr, ops)), exact=False)
+                    ctx.count('charged-mpo:last-leg-charged' if Or_.virtual_leg('last').t != (Or_.config.sym.zero(),) else 'charged-mpo:last-leg-neutral')
             chk('measure_overlap', np.array(mps.measure_overlap(a, b)), np.vdot(va, vb))
             chk('vdot(a,b)', np.array(mps.vdot(a, b)), np.vdot(va, vb))
             chk('measure_mpo', np.array(mps.measure_mpo(a, O, b)), np.vdot(va, MO @ vb))
@@ -356,6 +373,9 @@ def dense_oracles(ctx, quick):
             ten = a.to_tensor()
             if ten.size and N >= 1 and np.any(va != 0):       # the zero tensor has no normalised MPS form (division by its norm)
                 pa = mps.mps_from_tensor(ten, opts_svd={'tol': 1e-14})
+                # the rebuilt chain lives in the same space as the chain it came from: overlaps and differences
+                chk('measure_overlap(a, mps_from_tensor(a.to_tensor()))', np.array(mps.measure_overlap(a, pa)), np.vdot(va, dvec(pa, ops)), exact=False)
+                chk('norm(a - mps_from_tensor(a.to_tensor()))', np.array(float((a - pa).norm()) / max(1.0, float(np.linalg.norm(va)))), np.array(0.0), exact=False)
                 chk('mps_from_tensor', dvec(pa, ops), va, exact=False)
             # expression tree
             expr = (O @ (a + 2 * b)) - ((P @ c) * f) + (O @ P) @ a
